@@ -78,7 +78,7 @@ Proof. repeat split. Qed.
 Lemma emit_num_text : forall v t, emit_num v = JOk t -> nums_wf v -> num_text t.
 Proof.
   intros v t H W. destruct numc_consts as [N0 [Nd Nm]]. destruct v; try discriminate; simpl in H.
-  - destruct (int_float_repr z) as [r|] eqn:E; [|discriminate]. split.
+  - destruct (int_float_repr z) as [r|] eqn:E; [|unfold int_too_big in H; destruct (float_overflows z); discriminate]. split.
     + eapply convert2es6_nonempty; [exact H|]. eapply int_float_repr_nonempty. exact E.
     + apply (convert2es6_chars numc N0 Nd Nm r t H).
       eapply Forall_impl; [|eapply int_float_repr_rc; exact E]. apply repr_char_numc.
@@ -268,7 +268,7 @@ Proof.
   - destruct (emit_num_text _ _ H W) as [Hn Hc]. destruct t as [|c t']; [contradiction|].
     cbn [app parse_value]. inversion Hc as [|? ? Hc1 Hc2]; subst. unfold numc in Hc1. rewrite Hc1.
     change (c :: t' ++ rest) with ((c :: t') ++ rest). rewrite (span_num_app _ _ Hc S).
-    simpl in H. simpl. destruct (int_float_repr z); [|discriminate]. rewrite H. reflexivity.
+    simpl in H. simpl. destruct (int_float_repr z); [|unfold int_too_big in H; destruct (float_overflows z); discriminate]. rewrite H. reflexivity.
   - destruct (emit_num_text _ _ H W) as [Hn Hc]. destruct t as [|c t']; [contradiction|].
     cbn [app parse_value]. inversion Hc as [|? ? Hc1 Hc2]; subst. unfold numc in Hc1. rewrite Hc1.
     change (c :: t' ++ rest) with ((c :: t') ++ rest). rewrite (span_num_app _ _ Hc S).
